@@ -143,8 +143,11 @@ func (nm LNumber) Format(f fmt.State, c rune) {
 	switch c {
 	case 'q', 's':
 		defaultFormat(nm.String(), f, c)
-	case 'b', 'c', 'U':
+	case 'b', 'U':
 		defaultFormat(int64(nm), f, c)
+	case 'c':
+		// the byte (unsigned char)n, not the UTF-8 encoding of the code point n
+		formatPadded(f, string([]byte{byte(int64(nm))}))
 	case 'd', 'i':
 		if v := int64(nm); v < 0 {
 			formatInteger(f, 'd', true, -uint64(v))
